@@ -860,6 +860,10 @@ func (e *Engine) binop(op token.Token, x, y Value) Value {
 		if a.konst && b.konst {
 			return mkInt(a.iv >> uint(b.iv))
 		}
+		if _, ok := e.bitWidth(a); ok && b.konst && b.iv >= 0 && b.iv < 62 {
+			// non-negative value of known width: a logical shift is a division
+			return app(false, "div", a, mkInt(int64(1)<<uint(b.iv)))
+		}
 	case token.AND:
 		if a.konst && b.konst {
 			return mkInt(a.iv & b.iv)
